@@ -338,8 +338,6 @@ impl StorageEngine {
         
         match shard_guard.data.get(key) {
             Some(stored_value) if !stored_value.is_expired() => {
-                let ttl = stored_value.metadata.expires_at
-                    .map(|expires_at| expires_at.saturating_duration_since(Instant::now()));
                 // Cloning a sorted set only clones the Arc: copy its members so that the
                 // snapshot cannot change after the lock is released
                 let value = match &stored_value.value {
@@ -352,6 +350,10 @@ impl StorageEngine {
                     }
                     other => other.clone(),
                 };
+                // Measured last: copying a large value takes time, and the caller turns
+                // this back into an absolute deadline right away
+                let ttl = stored_value.metadata.expires_at
+                    .map(|expires_at| expires_at.saturating_duration_since(Instant::now()));
                 Ok(Some((value, ttl)))
             }
             _ => Ok(None),
